@@ -146,6 +146,48 @@ fn native_spec() {
             }
         }
         let _ = std::panic::take_hook();
+    } else if target == "parse_subcommand" {
+        // C09: the chain of subcommands is the chain named on the command line and each level's
+        // arguments are parsed against that level's definition only (same-named args at each level)
+        let mk = || {
+            Command::new("p")
+                .arg(Arg::new("x").long("x").action(ArgAction::Set))
+                .subcommand(
+                    Command::new("sub")
+                        .alias("s")
+                        .arg(Arg::new("x").long("x").action(ArgAction::Set))
+                        .arg(Arg::new("y").long("y").action(ArgAction::SetTrue))
+                        .subcommand(Command::new("leaf").arg(Arg::new("x").long("x").action(ArgAction::Set))),
+                )
+        };
+        for (argv, want) in [
+            (vec!["p", "--x", "0", "sub", "--x", "1", "--y", "leaf", "--x", "2"], vec![Some("0"), Some("1"), Some("2")]),
+            (vec!["p", "sub", "--x", "1", "leaf"], vec![None, Some("1"), None]),
+            (vec!["p", "--x", "0", "s", "leaf", "--x", "2"], vec![Some("0"), None, Some("2")]),
+            (vec!["p", "sub", "leaf", "--x", "2"], vec![None, None, Some("2")]),
+        ] {
+            match mk().try_get_matches_from(argv.clone()) {
+                Ok(m) => {
+                    let l0 = m.get_one::<String>("x").map(|s| s.as_str());
+                    let (n1, m1) = match m.subcommand() {
+                        Some(x) => x,
+                        None => {
+                            println!("SPEC-REPLAY MISMATCH target=parse_subcommand case={argv:?}: no subcommand reported");
+                            continue;
+                        }
+                    };
+                    let l1 = m1.get_one::<String>("x").map(|s| s.as_str());
+                    let (n2, l2) = match m1.subcommand() {
+                        Some((n, m2)) => (n, m2.get_one::<String>("x").map(|s| s.as_str())),
+                        None => ("", None),
+                    };
+                    if n1 != "sub" || n2 != "leaf" || vec![l0, l1, l2] != want || m1.get_flag("y") != argv.contains(&"--y") {
+                        println!("SPEC-REPLAY MISMATCH target=parse_subcommand case={argv:?}: chain {n1}/{n2}, --x per level {:?}, expected sub/leaf {want:?}", vec![l0, l1, l2]);
+                    }
+                }
+                Err(e) => println!("SPEC-REPLAY MISMATCH target=parse_subcommand case={argv:?}: rejected as {:?}", e.kind()),
+            }
+        }
     } else if target == "match_arg_error" {
         // C10: the error kind names a rule the input really breaks
         for acws in [false, true] {
